@@ -90,6 +90,28 @@ class Base:
         return q[rows] if len(rows) else q[:0]
 
 
+def _numbers(g):
+    """coordinates of a scalar geometry as nested lists of python numbers"""
+    if g is None:
+        return None
+    if hasattr(g, "flat_values") and not hasattr(g, "listarray"):
+        return [float(v) for v in g.flat_values]
+
+    def conv(v):
+        if isinstance(v, (list, tuple)):
+            return [conv(x) for x in v]
+        return float(v)
+    return conv(g.data.as_py())
+
+
+def _same_numbers(a, b):
+    if a is None or b is None:
+        return a is None and b is None
+    if isinstance(a, list):
+        return isinstance(b, list) and len(a) == len(b) and all(_same_numbers(x, y) for x, y in zip(a, b))
+    return a == b or (a != a and b != b)
+
+
 def eqf(a, b):
     a = np.asarray(a)
     b = np.asarray(b)
@@ -290,6 +312,35 @@ def check_state(col, base, arr, ids, hist):
     col.count("evaluations")
     if len(set(i for i in ids if i is not None)) >= 2 or (n and any(i is None for i in ids)):
         col.count("nontrivial")
+    # operations that DERIVE something must not modify the array they are applied to: run them first (results
+    # discarded), then evaluate the invariant on the same object
+    import pandas as pd
+    from spatialpandas import GeoSeries
+    other_st = {"float64": "int64", "int32": "float32"}[base.st]
+    for probe in (lambda: arr.fillna(method="ffill"), lambda: arr.fillna(method="bfill", limit=1), lambda: arr.copy(),
+                  lambda: arr.take([0, -1], allow_fill=True) if n else None, lambda: arr.isna().fill(True),
+                  lambda: np.asarray(arr.bounds).fill(0.0) if n else None, lambda: pickle.dumps(arr),
+                  lambda: arr.argsort() if base.kind != "point" else None, lambda: GeoSeries(arr).isna().values.fill(True)):
+        try:
+            probe()
+        except Exception:
+            pass
+    # concatenation with an array of another coordinate subtype of the same byte width keeps every element's numbers
+    try:
+        col.count("evaluations")
+        valid_ids = [i for i in ids if i is not None]
+        if n and valid_ids and base.kind != "point" or (base.kind == "point" and n):
+            oth_elems = [(0, 0) if (base.kind == "point" and e == () and not other_st.startswith("float")) else e for e in base.elems]
+            oth = L.make_array(base.kind, oth_elems, other_st)
+            cat = pd.concat([GeoSeries(arr), GeoSeries(oth)], ignore_index=True)
+            got = [None if (g is None or (isinstance(g, float) and g != g)) else _numbers(g) for g in cat.tolist()]
+            want = [None if i is None else _numbers(base.scalars[i]) for i in ids] + [None if g is None else _numbers(g) for g in list(oth)]
+            if not _same_numbers(got, want):
+                bad = next(k for k, (x, y) in enumerate(zip(got, want)) if not _same_numbers(x, y))
+                col.violation(f"{base.kind}.concat_mixed_subtype", case,
+                              f"pd.concat with a {other_st} array changed element {bad}: {got[bad]} expected {want[bad]} after {hist[-3:]}", op=op)
+    except Exception as ex:
+        col.violation(f"{base.kind}.concat_mixed_subtype.raises", case, f"{type(ex).__name__}: {str(ex)[:200]}", op=op)
     quantities = [("isna", lambda a: a.isna()), ("bounds", lambda a: a.bounds), ("length", lambda a: a.length),
                   ("area", lambda a: a.area),
                   ("hd", lambda a: a.hilbert_distance(total_bounds=HD_BOUNDS, p=4))]
